@@ -1,5 +1,6 @@
 import VelaVerif.Lemmas.FpMath
 import VelaVerif.Lemmas.Lut
+import VelaVerif.Lemmas.FpMathExp
 import VelaVerif.Gen.FpMathTables
 /-!
 # C19 — lookup tables and compile-time fixed-point maths match their reference functions
@@ -112,6 +113,27 @@ theorem mbqm_rejects (x scale shift : Int)
     simp [hfit]; rfl
 
 
+/-- `exp_on_interval_between_negative_one_quarter_and_0_excl` = the gemmlowp function of the same name on its
+    whole domain `-2^29 ≤ a < 0` (Q0.31): no assert of the Python fires, no int32 addition of the C code wraps
+    (the largest value reached is 2147483155 < 2^31, with 492 units of slack in the interval bound). -/
+theorem exp_on_interval_eq (a : Int) (h1 : -536870912 ≤ a) (h2 : a < 0) :
+    expOnIntervalBetweenNegativeOneQuarterAnd0Excl a = .ok (Gemmlowp.expOnInterval a) :=
+  FpMath.expint_eq a h1 h2
+
+/-- `exp_on_negative_values` = gemmlowp `exp_on_negative_values<int32, 5 integer bits>` for **every** int32 `a ≤ 0`:
+    masking, rescale, the degree-4 polynomial and all seven barrel-shifter stages. -/
+theorem exp_on_negative_eq (a : Int) (ha : inI32 a = true) (h0 : a ≤ 0) :
+    expOnNegativeValues a = .ok (Gemmlowp.expOnNegativeValues a) :=
+  FpMath.expneg_eq a ha h0
+
+/-- positive arguments are rejected -/
+theorem exp_on_negative_rejects_positive (a : Int) (h : a > 0) : ∃ e, expOnNegativeValues a = .error e := by
+  unfold expOnNegativeValues chk32
+  by_cases hi : inI32 a = true
+  · have : ¬ (a ≤ 0) := by omega
+    exact ⟨.assert_, by simp [hi, this]; rfl⟩
+  · exact ⟨.assert_, by simp [hi]; rfl⟩
+
 /-! ## look-up tables -/
 
 /-- `convert_lrelu_to_lut`: for every int32 multiplier pair, shifts in `[0, 62]` and zero points such that the
@@ -205,6 +227,8 @@ example : roundingDivideByPot (-5) 1 = .ok (-3) ∧ roundingDivideByPot 5 1 = .o
 example : multiplyByQuantizedMultiplier (-100) 1073741824 30 = .ok (-100) := by decide
 example : inI32 ((-100) * 2 ^ (if (31:Int) - 30 > 0 then ((31:Int) - 30).toNat else 0)) = true := by decide
 example : multiplyByQuantizedMultiplier 100 1073741824 5 = .error .assert_ := by decide
+example : expOnNegativeValues (-67108864) = .ok 790015308 ∧ expOnNegativeValues 0 = .ok 2147483647 ∧
+    expOnNegativeValues (-2147483648) = .ok 0 := by decide
 -- lrelu: int8, zero points 3 / -8, identity 0.4 (1717986854, 32), alpha 0.04 (1374389504, 35): hypotheses hold, table is not constant
 example : (qmin true ≤ (3:Int) ∧ (3:Int) ≤ qmax true) ∧ inI32 1717986854 = true ∧ inI32 1374389504 = true := by decide
 example : lreluEntry true 3 (-8) 1717986854 32 1 1374389504 35 (-128) = .ok (-13) ∧
